@@ -486,8 +486,34 @@ fn call(w: &mut World, c: Call, proto: String, out: &mut Out) -> (String, String
     let mut used = vec![false; fresh.len()];
     let mut ret: Vec<(u32, u32, u32)> = vec![]; // (h, k, t)
     let mut unresolved = false;
-    for (h, k) in &raw {
-        match (0..fresh.len()).find(|i| !used[*i] && fresh[*i].h == *h && fresh[*i].k == *k) {
+    // the single new key of an advertisement goes first in the returned list (fast path): if a fresh in-flight
+    // entry of exactly that version and holder exists, it belongs to the first returned pair
+    let fast_version: Option<(u32, u32, u32)> = match &c {
+        Call::Add { h, list } => {
+            let fr: Vec<&(u32, u32)> = list
+                .iter()
+                .filter(|(k, t)| {
+                    w.local_ids.get(k) != Some(t)
+                        && !tb.iter().any(|e| (e.k, e.t, e.h) == (*k, *t, *h))
+                        && w.far.as_ref().map(|f| &w.d(*k) <= f).unwrap_or(true)
+                })
+                .collect();
+            if fr.len() == 1 {
+                Some((*h, fr[0].0, fr[0].1))
+            } else {
+                None
+            }
+        }
+        _ => None,
+    };
+    for (idx, (h, k)) in raw.iter().enumerate() {
+        let preferred = match fast_version {
+            Some((fh, fk, ft)) if idx == 0 && (fh, fk) == (*h, *k) => {
+                (0..fresh.len()).find(|i| !used[*i] && (fresh[*i].h, fresh[*i].k, fresh[*i].t) == (fh, fk, ft))
+            }
+            _ => None,
+        };
+        match preferred.or_else(|| (0..fresh.len()).find(|i| !used[*i] && fresh[*i].h == *h && fresh[*i].k == *k)) {
             Some(i) => {
                 used[i] = true;
                 ret.push((*h, *k, fresh[i].t));
@@ -838,6 +864,8 @@ fn corpus() -> Vec<&'static str> {
         "new 5", "key 0", "key 1", "key 2", "add 0 0:0", "add 1 0:0,1:0", "add 2 0:0,2:0", "age 899", "add 0 -", "age 1", "add 0 -", "next",
         // put removes every type in flight for the key but only the same type from the queue
         "new 6", "key 0", "key 1", "add 0 0:2,0:3", "add 1 0:2,0:3,1:0", "put 0 2", "early 0 3", "early 1 0",
+        // one call returns the same (holder, key) twice: fast path (type 3) first, then the queued type 2
+        "new 2", "key 0", "key 1", "add 0 0:2", "add 1 0:2,0:2", "age 20", "add 1 0:3",
         // fullness: farthest only shrinks
         "new 0", "key 0", "key 1", "key 2", "key 3", "add 0 0:0,1:0,2:0,3:0", "full 2", "full 3", "full 0", "add 1 1:0,2:0,3:0", "add 1 3:0",
     ]
